@@ -227,6 +227,7 @@ func runC04(c *gen.Ctx) error {
 	c04InGen(c)
 	c04LoopGen(c)
 	c04CliGen(c)
+	c04ArgsGen(c)
 	return nil
 }
 
